@@ -38,6 +38,10 @@ type Server struct {
 	// Fail is consulted before every primitive call with its name
 	// ("begin", "exec", "query", "next", "scan", "commit", "rollback").
 	Fail func(op string) bool
+	// SortedScan: a range query ("key >= $1", no ORDER BY in the statement)
+	// returns its rows in key order (an index scan) instead of insertion
+	// order (a heap scan); PostgreSQL promises neither.
+	SortedScan bool
 }
 
 func New() *Server { return &Server{} }
@@ -54,6 +58,25 @@ func eq(a, b []byte) bool {
 		}
 	}
 	return true
+}
+
+// less: bytewise lexicographic order, as PostgreSQL compares bytea.
+func less(a, b []byte) bool {
+	for i := 0; i < len(a) && i < len(b); i++ {
+		if a[i] != b[i] {
+			return a[i] < b[i]
+		}
+	}
+	return len(a) < len(b)
+}
+
+func containsGE(sql string) bool {
+	for i := 0; i+1 < len(sql); i++ {
+		if sql[i] == '>' && sql[i+1] == '=' {
+			return true
+		}
+	}
+	return false
 }
 
 // Lookup returns the committed value for key.
@@ -181,8 +204,9 @@ func (t *Tx) Exec(ctx context.Context, sql string, arguments ...any) (pgconn.Com
 	return pgconn.CommandTag{}, nil
 }
 
-// Query understands "WHERE key = $1" (one argument, exact match); the
-// transaction's own pending writes are visible to it.
+// Query understands "WHERE key = $1" (one argument, exact match; the
+// transaction's own pending writes are visible to it) and "WHERE key >= $1"
+// (range scan over the committed rows).
 func (t *Tx) Query(ctx context.Context, sql string, args ...any) (pgx.Rows, error) {
 	if err := t.usable(); err != nil {
 		return nil, err
@@ -192,6 +216,23 @@ func (t *Tx) Query(ctx context.Context, sql string, args ...any) (pgx.Rows, erro
 		return nil, ErrInjected
 	}
 	r := &Rows{s: t.s, rec: t.rec}
+	if len(args) == 1 && containsGE(sql) {
+		// range scan over the committed rows: every row with key >= $1
+		k, _ := args[0].([]byte)
+		for _, kv := range t.s.Data {
+			if !less(kv.K, k) {
+				r.rows = append(r.rows, kv)
+			}
+		}
+		if t.s.SortedScan {
+			for i := 1; i < len(r.rows); i++ {
+				for j := i; j > 0 && less(r.rows[j].K, r.rows[j-1].K); j-- {
+					r.rows[j], r.rows[j-1] = r.rows[j-1], r.rows[j]
+				}
+			}
+		}
+		return r, nil
+	}
 	if len(args) == 1 {
 		k, _ := args[0].([]byte)
 		found := false
